@@ -240,12 +240,13 @@ def corpus(rng):
     ev = [k(16, 1), k(60, 1), k(60, 0), k(17, 1), k(16, 0)] + tap(61) * 2 + tap(62) * 3 + [k(18, 1)] + tap(64) + [k(18, 0), k(17, 0)] \
         + tap(65) + tap(67) * 16 + tap(66) * 16 + tap(68) + [k(59, 1), k(59, 0)]
     cases.append({"cfg": full, "abs": [], "events": ev, "leds": list(reversed(allnames)), "tag": "corpus-walk"})
-    # K3: no multinote key (as in the factory keyboard configuration) and an action key without LED; LED 0 is a note key
+    # K3: no multinote key (as in the factory keyboard configuration): LED 0 (here the panic key's) is overwritten with white1
     nomulti = cfg_with(STATE_ACTIONS[:-1])
-    names = [KEY_TO_LED[16]] + [KEY_TO_LED[59 + i] for i in range(9)] + [KEY_TO_LED[17]]
+    names = [KEY_TO_LED[59 + i] for i in range(9)] + [KEY_TO_LED[16], KEY_TO_LED[17]]
     cases.append({"cfg": nomulti, "abs": [], "events": tap(60) + [m(0x90, 61, 64)] + tap(61), "leds": names, "tag": "corpus-K3"})
-    names = [KEY_TO_LED[62]] + [KEY_TO_LED[16 + i] for i in range(4)] + [KEY_TO_LED[59 + i] for i in (0, 1, 2, 4, 5, 6, 7, 8, 9)]
-    cases.append({"cfg": full, "abs": [], "events": tap(65) + tap(66) + [k(16, 1), k(16, 0)], "leds": names, "tag": "corpus-K3"})
+    # K3: an action key without LED (semitone_up, F4): LED 0 belongs to a note key that is out of range after octave_up
+    names = [KEY_TO_LED[21]] + [KEY_TO_LED[16 + i] for i in range(4)] + [KEY_TO_LED[59 + i] for i in (0, 1, 2, 4, 5, 6, 7, 8, 9)]
+    cases.append({"cfg": full, "abs": [], "events": tap(60) + tap(65) + tap(66) + [k(16, 1), k(16, 0)], "leds": names, "tag": "corpus-K3"})
     # K4: |offset| >= 129: a key lights up for a pitch it cannot sound
     hi = cfg_with(STATE_ACTIONS, octave=11)
     cases.append({"cfg": hi, "abs": [], "events": [m(0x90, 0, 64), m(0x92, 0, 64), m(0x90, 0, 0)], "leds": allnames, "tag": "corpus-K4"})
@@ -441,13 +442,14 @@ def run(run_, cases=None):
         run_.violation("a frame contains colours that belong to no colour class: %s (case %d)" % (["#%06x" % v for v in bad[:5]], i),
                        {"kind": "led-history", "case": {kk: v for kk, v in cases[i].items() if kk != "tag"}, "monitor": mon, "colours": bad[:20]})
     known_ids = {k_["id"] for k_ in load_known() if k_.get("property") == "C17" and k_.get("status") == "known"}
-    reported = 0
+    reported, seen_sigs = 0, set()
     for i in sorted(failing):
         case = {kk: v for kk, v in cases[i].items() if kk != "tag"}
         res, fails = results[i], failing[i]
         sig = signature(case, res, fails, i not in orig_mis)
-        if sig not in known_ids and reported >= 3:
+        if sig not in known_ids and (reported >= 4 or (reported >= 2 and sig in seen_sigs)):
             continue
+        seen_sigs.add(sig)
         if sig not in known_ids and not replaying:
             # a failing frame stays failing when the history is cut right after it; then delta-debug a little
             first = min(fi for fi, _ in fails)
